@@ -52,7 +52,7 @@ pub fn checks() -> Vec<Check> {
             id: "C58",
             title: "Derived behaviours compose their fields faithfully",
             level: Level::Exploration,
-            rule: "every E2 run uses a #[derive(NetworkBehaviour)] composite of three probe fields. Oracle: the FromSwarm sequences logged by the three fields are identical (every swarm event reaches every field, in the same order); a handler event emitted by the handler of field k (Echo, requested by field k through NotifyHandler) arrives at field k only; a connection is denied iff some field denied it; the addresses dialled for a pending dial are the union of the fields' answers (with extend_addresses_through_behaviour). Non-trivial = at least one Echo round trip and one denial or multi-field address answer; distinct as for C01",
+            rule: "every E2 run uses a #[derive(NetworkBehaviour)] composite of three probe fields. Oracle: the FromSwarm sequences logged by the three fields are identical (every swarm event reaches every field, in the same order); a handler event emitted by the handler of field k (Echo, requested by field k through NotifyHandler) arrives at field k only; the events each handler emits from poll_close (0..4 per field, with Pending returns in between) all reach its own field before ConnectionClosed; a connection is denied iff some field denied it; the addresses dialled for a pending dial are the union of the fields' answers (with extend_addresses_through_behaviour). Non-trivial = at least one Echo round trip and one denial or multi-field address answer; distinct as for C01",
             assumptions: &[],
             real: REAL,
             stub: STUB,
@@ -107,6 +107,8 @@ fn run_churn(deny_focus: bool, full: bool) -> SimResult {
         for (k, c) in cfgs.iter_mut().enumerate() {
             c.keep_alive = choose(4) != 0;
             c.protocols = vec![format!("/probe/{}", k + 1)];
+            // what the handler does when the connection closes: a few closing events, with Pending returns in between
+            c.close_plan = (0..choose(5)).map(|_| choose(2) == 0).collect();
             for p in 0..4 {
                 c.deny[p] = if deny_focus && k == dslot && p == dpoint { [300u32, 600, 900][choose(3)] } else if choose(6) == 0 { 40 } else { 0 };
             }
@@ -430,6 +432,39 @@ fn final_oracles(w: &World) -> SimResult {
         for (_, e) in &log.beh {
             if let BEv::FromHandler { tag, ev: HOut::Echo { tag: from, n }, .. } = e {
                 ensure!(tag == from, "C58/handler-event-misrouted", "n{i}: Echo #{n} emitted by the handler of field {from} was delivered to field {tag}");
+            }
+        }
+        // ---- C58: events a handler emits while its connection closes reach its own field, all of them, before ConnectionClosed
+        {
+            let s = nd.swarm.borrow();
+            let b = s.behaviour();
+            let plans: Vec<usize> = [&b.p1, &b.p2, &b.p3].iter().map(|p| p.cfg.lock().unwrap().close_plan.iter().filter(|x| **x).count()).collect();
+            let mut got: BTreeMap<(u8, ConnectionId), usize> = BTreeMap::new();
+            let mut closed_seen: BTreeSet<(u8, ConnectionId)> = BTreeSet::new();
+            for (_, e) in &log.beh {
+                match e {
+                    BEv::FromHandler { tag, id, ev: HOut::Closing { tag: from, n }, .. } => {
+                        ensure!(tag == from, "C58/handler-event-misrouted", "n{i}: Closing #{n} emitted by the handler of field {from} was delivered to field {tag}");
+                        ensure!(!closed_seen.contains(&(*tag, *id)), "C58/close-event-after-closed", "n{i}: field {tag} received a closing event of connection {id} after ConnectionClosed");
+                        *got.entry((*tag, *id)).or_insert(0) += 1;
+                    }
+                    BEv::ConnectionClosed { tag, id, .. } => {
+                        closed_seen.insert((*tag, *id));
+                    }
+                    _ => {}
+                }
+            }
+            let polled: BTreeSet<(u8, ConnectionId)> = log.hand.iter().filter_map(|(_, h)| if let HEv::PollClose { tag, id, .. } = h { Some((*tag, *id)) } else { None }).collect();
+            for (tag, id) in &closed_seen {
+                // a connection whose task was asked to close (gracefully or after an error) drains every handler's closing events
+                if polled.iter().any(|(_, pid)| pid == id) {
+                    let want = plans[*tag as usize - 1];
+                    let have = got.get(&(*tag, *id)).copied().unwrap_or(0);
+                    ensure!(have == want, "C58/close-event-lost", "n{i}: the handler of field {tag} emits {want} closing events for connection {id}, its field received {have}");
+                    if want > 0 {
+                        probe("closing-events-delivered");
+                    }
+                }
             }
         }
         // ---- C58/C04: union of addresses for behaviour-address dials
